@@ -124,9 +124,10 @@ Proof.
   intros (en & E & S & O). apply (He e en E S O).
 Qed.
 
-Lemma step_thread_acc st t st' : step_thread repaired st t = Some st' -> inv_acc st -> inv_acc st'.
+Lemma step_thread_acc var st t st' : v_recover_own var = true -> v_save_rehome var = true ->
+  step_thread var st t = Some st' -> inv_acc st -> inv_acc st'.
 Proof.
-  unfold step_thread. intros H I. pose proof I as [IE IT IC IL IA].
+  unfold step_thread. intros Vown Vre H I. rewrite Vown, Vre in H. pose proof I as [IE IT IC IL IA].
   destruct (nth_error (threads st) t) as [th|] eqn:Hth; [|discriminate].
   pose proof (IT t th Hth) as Tt. unfold twf in Tt.
   destruct (tpc th) as [| i | i | g s v | r] eqn:Hpc; try discriminate.
@@ -199,22 +200,23 @@ Proof.
     destruct (tout th) as [v s| |] eqn:Hout.
     + destruct (nth_error (caches st) (tcache th)) as [ca|] eqn:Hca; [|discriminate].
       pose proof (IC _ _ Hca) as Hcur.
-      inversion H; subst st'; clear H. simpl.
-      set (size := (if edeleted en then 0 else esz st + s)%Z).
-      split; simpl; auto.
-      * intros e en' He. rewrite nth_error_upd in He. destruct (Nat.eqb_spec i e).
-        -- subst. rewrite Hen in He. inversion He; subst. unfold ewf. simpl. repeat split; auto; congruence.
-        -- eapply IE; eauto.
-      * intros t' th' H'. unfold set_pc in H'. rewrite nth_error_upd in H'. destruct (Nat.eqb_spec t t').
-        -- subst. rewrite Hth in H'. inversion H'; subst. unfold twf. simpl. auto.
-        -- eapply Hother; eauto. intros e en0 Hne E0. exists en0. rewrite nth_error_upd_other; auto.
-      * intros g Hg Hstg. rewrite (pend_sum_set_pc g t _ _ th Hth), Hp0, (att_sum_upd g i _ _ en Hen).
-        rewrite <- IA; auto. unfold pend_term, att_term. simpl. rewrite Hsz0.
-        assert (Hd : eattached en = true \/ size = 0%Z).
-        { destruct (Hld Hst) as [A|D]; auto. right. unfold size. rewrite D. auto. }
-        destruct (eattached en); simpl.
-        -- destruct (Nat.eqb (egen en) g), (Nat.eqb (ccur ca) g); lia.
-        -- destruct Hd as [?|Hd]; [discriminate|]. rewrite Hd. destruct (Nat.eqb (ccur ca) g); lia.
+      inversion H; subst st'; clear H.
+      set (size := (if edeleted en then 0 else esz st + s)%Z) in *.
+      assert (Hd : eattached en = true \/ size = 0%Z).
+      { destruct (Hld Hst) as [A|D]; auto. right. unfold size. rewrite D. auto. }
+      destruct (v_add_locked var); (split; simpl; rewrite ?gadd_length; auto;
+      [ intros e en' He; rewrite nth_error_upd in He; destruct (Nat.eqb_spec i e);
+        [ subst; rewrite Hen in He; inversion He; subst; unfold ewf; simpl; repeat split; auto; congruence
+        | eapply IE; eauto ]
+      | intros t' th' H'; unfold set_pc in H'; rewrite nth_error_upd in H'; destruct (Nat.eqb_spec t t');
+        [ subst; rewrite Hth in H'; inversion H'; subst; unfold twf; simpl; auto
+        | eapply Hother; eauto; intros e en0 Hne E0; exists en0; rewrite nth_error_upd_other; auto ]
+      | intros g Hg Hstg; rewrite ?gst_gadd in Hstg; rewrite ?gsz_gadd by auto;
+        rewrite (pend_sum_set_pc g t _ _ th Hth), Hp0, (att_sum_upd g i _ _ en Hen);
+        rewrite <- IA; auto; unfold pend_term, att_term; simpl; rewrite Hsz0;
+        destruct (eattached en); simpl;
+        [ destruct (Nat.eqb (egen en) g), (Nat.eqb (ccur ca) g); lia
+        | destruct Hd as [?|Hd]; [discriminate|]; rewrite Hd; destruct (Nat.eqb (ccur ca) g); lia ] ]).
     + inversion H; subst st'; clear H. unfold recover_entries.
       assert (Hes : exists f, (forall x, estat (f x) = estat x /\ eowner (f x) = eowner x /\ egen (f x) = egen x /\ esize (f x) = esize x
                                           /\ edeleted (f x) = edeleted x) /\
@@ -389,7 +391,7 @@ Proof.
       * rewrite nth_error_app2 in Ht; auto. destruct (t - length (threads st)); simpl in Ht; [|destruct n; discriminate].
         inversion Ht; subst. unfold twf. simpl. auto.
     + intros g Hg Hst. rewrite pend_sum_app. rewrite <- G; auto. unfold pend_term. simpl. lia.
-  - eapply step_thread_acc; eauto.
+  - eapply (step_thread_acc repaired); eauto.
   - (* NewCache *) inversion H; subst st'. destruct I as [A B D F G]. unfold new_cache. split; simpl; auto.
     intros c ca Hc. destruct (Nat.lt_ge_cases c (length (caches st))).
     + rewrite nth_error_app1 in Hc; eauto.
